@@ -7,9 +7,11 @@ use serde_json::Value as J;
 pub fn run(rep: &Report) -> bool {
     match rep.prop.as_str() {
         "C01" => props::c01::run(rep),
+        "C02" => props::c02::run(rep),
         "C03" => props::c03::run(rep),
         "C04" => props::c04::run(rep),
         "C05" => props::c05::run(rep),
+        "C06" => props::c06::run(rep),
         "C10" => props::c10::run(rep),
         "C13" => props::c13::run(rep),
         "C14" => props::c14::run(rep),
@@ -55,9 +57,11 @@ pub fn replay(rep: &Report, path: &str) -> i32 {
     let stage = j["stage"].as_str().unwrap_or("").to_string();
     match rep.prop.as_str() {
         "C01" => props::c01::replay(rep, &stage, &j),
+        "C02" => props::c02::replay(rep, &stage, &j),
         "C03" => props::c03::replay(rep, &stage, &j),
         "C04" => props::c04::replay(rep, &stage, &j),
         "C05" => props::c05::replay(rep, &stage, &j),
+        "C06" => props::c06::replay(rep, &stage, &j),
         "C10" => props::c10::replay(rep, &stage, &j),
         "C13" => props::c13::replay(rep, &stage, &j),
         "C14" => props::c14::replay(rep, &stage, &j),
